@@ -26,6 +26,7 @@ type LoopSpec struct {
 	Invariants  []Clause
 	Decreases   []Clause
 	Steps       []Clause // step <expr>: relation between the head (prev(...)) and the end of every iteration
+	OnBreak     []Clause // on_break <expr>: holds whenever the loop is left by a break ("on_break false": never left early)
 }
 
 type Contract struct {
@@ -132,7 +133,7 @@ type Specs struct {
 var headerRe = regexp.MustCompile(`^func\s*(\(\s*(\w+)?\s*(\*?)\s*(\w+)\s*\))?\s*(\w+)\s*$`)
 
 var clauseKw = map[string]bool{"property": true, "opts": true, "requires": true, "ensures": true, "modifies": true,
-	"loop": true, "invariant": true, "step": true, "inline": true, "implements": true, "counts": true, "records": true, "at_call": true, "at_send": true, "let": true, "uses": true, "params": true, "decreases": true}
+	"loop": true, "invariant": true, "step": true, "on_break": true, "inline": true, "implements": true, "counts": true, "records": true, "at_call": true, "at_send": true, "let": true, "uses": true, "params": true, "decreases": true}
 var topKw = map[string]bool{"spec": true, "ghost": true, "lemma": true, "axiom": true, "func": true, "closure": true,
 	"interface": true, "extern": true, "directive": true, "fnvalue": true, "guards": true}
 
@@ -499,6 +500,15 @@ func loadContractFile(path, pkgPath string, resolveQual func(q string) string, s
 				return err
 			}
 			curLoop.Steps = append(curLoop.Steps, cl)
+		case "on_break":
+			if curLoop == nil {
+				return fail(l, "on_break outside a loop")
+			}
+			cl, err := mkClause(l, rest)
+			if err != nil {
+				return err
+			}
+			curLoop.OnBreak = append(curLoop.OnBreak, cl)
 		case "decreases":
 			if curLoop == nil {
 				return fail(l, "decreases outside a loop")
